@@ -271,6 +271,8 @@ def _spec_forall(ex, e, exists=False):
             v = fresh(n, z3.IntSort())
             env[n] = v
             vs.append(v)
+            if isinstance(r, ast.Name) and r.id == "ints":
+                continue            # all integers
             rv = ex.eval(r)
             if not isinstance(rv, Range):
                 raise Unsupported("quantifier domain must be a range")
@@ -283,7 +285,7 @@ def _spec_forall(ex, e, exists=False):
                 env.pop(n, None)
             else:
                 env[n] = o
-    dom = band(*conds)
+    dom = band(*conds) if conds else True
     if exists:
         f = band(dom, body)
         f = f if is_z3(f) else z3.BoolVal(bool(f))
